@@ -4,17 +4,17 @@ namespace RsslVerif.Lemmas.MetaReach
 open RsslVerif.Model.MetaReach RsslVerif.Spec.Meta
 
 /-- everything stored is reachable -/
-def Sound (direct req : Nat → List Sym) : Prop := ∀ f s, s ∈ req f → Reach direct f s
+def Sound (direct req : Sym → List Sym) : Prop := ∀ k s, s ∈ req k → Reach direct k s
 
 /-- the stored sets only grow from `direct` -/
-def Mono (direct req : Nat → List Sym) : Prop := ∀ f s, s ∈ direct f → s ∈ req f
+def Mono (direct req : Sym → List Sym) : Prop := ∀ k s, s ∈ direct k → s ∈ req k
 
-theorem mem_newSet {req : Nat → List Sym} {f : Nat} {s : Sym} :
-    s ∈ newSet req f ↔ s ∈ req f ∨ ∃ o ∈ req f, s ∈ reqOf req o := by
+theorem mem_newSet {req : Sym → List Sym} {k : Sym} {s : Sym} :
+    s ∈ newSet req k ↔ s ∈ req k ∨ ∃ o ∈ req k, s ∈ req o := by
   simp [newSet, List.mem_flatMap]
 
-theorem sound_update {direct req : Nat → List Sym} (hs : Sound direct req) (f : Nat) :
-    Sound direct (update req f (newSet req f)) := by
+theorem sound_update {direct req : Sym → List Sym} (hs : Sound direct req) (k : Sym) :
+    Sound direct (update req k (newSet req k)) := by
   intro g s hm
   unfold update at hm
   split at hm
@@ -22,21 +22,19 @@ theorem sound_update {direct req : Nat → List Sym} (hs : Sound direct req) (f 
     subst hg
     rcases mem_newSet.1 hm with h | ⟨o, ho, h⟩
     · exact hs _ _ h
-    · cases o with
-      | glob _ => simp [reqOf] at h
-      | fn h' => exact Reach.step (hs _ _ ho) (hs _ _ h)
+    · exact Reach.step (hs _ _ ho) (hs _ _ h)
   · exact hs _ _ hm
 
-theorem mono_update {direct req : Nat → List Sym} (hm : Mono direct req) (f : Nat) :
-    Mono direct (update req f (newSet req f)) := by
+theorem mono_update {direct req : Sym → List Sym} (hm : Mono direct req) (k : Sym) :
+    Mono direct (update req k (newSet req k)) := by
   intro g s hd
   unfold update
   split
   · rename_i hg; subst hg; exact mem_newSet.2 (Or.inl (hm _ _ hd))
   · exact hm _ _ hd
 
-theorem pass_inv {direct : Nat → List Sym} (keys : List Nat) :
-    ∀ (req : Nat → List Sym) (m : Bool), Sound direct req → Mono direct req →
+theorem pass_inv {direct : Sym → List Sym} (keys : List Sym) :
+    ∀ (req : Sym → List Sym) (m : Bool), Sound direct req → Mono direct req →
       Sound direct (pass keys req m).1 ∧ Mono direct (pass keys req m).1 := by
   induction keys with
   | nil => intro req m hs hm; exact ⟨hs, hm⟩
@@ -47,15 +45,15 @@ theorem pass_inv {direct : Nat → List Sym} (keys : List Nat) :
     · exact ih _ _ (sound_update hs f) (mono_update hm f)
     · exact ih _ _ hs hm
 
-theorem pass_flag_true (keys : List Nat) : ∀ (req : Nat → List Sym), (pass keys req true).2 = true := by
+theorem pass_flag_true (keys : List Sym) : ∀ (req : Sym → List Sym), (pass keys req true).2 = true := by
   induction keys with
   | nil => intro req; rfl
   | cons f ks ih => intro req; unfold pass; split <;> exact ih _
 
 /-- a pass that reports "not modified" changed nothing and found no key that could grow -/
-theorem pass_unmodified (keys : List Nat) :
-    ∀ (req : Nat → List Sym), (pass keys req false).2 = false →
-      (pass keys req false).1 = req ∧ ∀ f ∈ keys, grows req f = false := by
+theorem pass_unmodified (keys : List Sym) :
+    ∀ (req : Sym → List Sym), (pass keys req false).2 = false →
+      (pass keys req false).1 = req ∧ ∀ k ∈ keys, grows req k = false := by
   induction keys with
   | nil => intro req _; exact ⟨rfl, by simp⟩
   | cons f ks ih =>
@@ -72,18 +70,18 @@ theorem pass_unmodified (keys : List Nat) :
       · simpa using hg
       · exact h2 g hgm
 
-theorem closed_of_not_grows {req : Nat → List Sym} {f : Nat} (h : grows req f = false) :
-    ∀ o ∈ req f, ∀ s ∈ reqOf req o, s ∈ req f := by
+theorem closed_of_not_grows {req : Sym → List Sym} {k : Sym} (h : grows req k = false) :
+    ∀ o ∈ req k, ∀ s ∈ req o, s ∈ req k := by
   intro o ho s hs
-  have hall : (newSet req f).all (fun s => (req f).contains s) = true := by
+  have hall : (newSet req k).all (fun s => (req k).contains s) = true := by
     simpa [grows] using h
   have := (List.all_eq_true.1 hall) s (mem_newSet.2 (Or.inr ⟨o, ho, hs⟩))
   simpa using this
 
-theorem recurse_inv {direct : Nat → List Sym} (keys : List Nat) :
-    ∀ (fuel : Nat) (req res : Nat → List Sym), Sound direct req → Mono direct req →
+theorem recurse_inv {direct : Sym → List Sym} (keys : List Sym) :
+    ∀ (fuel : Nat) (req res : Sym → List Sym), Sound direct req → Mono direct req →
       recurse fuel keys req = some res →
-      Sound direct res ∧ Mono direct res ∧ ∀ f ∈ keys, ∀ o ∈ res f, ∀ s ∈ reqOf res o, s ∈ res f := by
+      Sound direct res ∧ Mono direct res ∧ ∀ k ∈ keys, ∀ o ∈ res k, ∀ s ∈ res o, s ∈ res k := by
   intro fuel
   induction fuel with
   | zero => intro req res _ _ h; simp [recurse] at h
@@ -104,31 +102,31 @@ theorem recurse_inv {direct : Nat → List Sym} (keys : List Nat) :
       obtain ⟨hsame, hng⟩ := pass_unmodified keys req h2
       have hreq : req' = req := by rw [← h1, hsame]
       subst hreq
-      exact ⟨hs, hm, fun f hf => closed_of_not_grows (hng f hf)⟩
+      exact ⟨hs, hm, fun k hk => closed_of_not_grows (hng k hk)⟩
 
-theorem reach_fn_keys {direct : Nat → List Sym} {keys : List Nat}
-    (hk : ∀ f ∈ keys, ∀ h, Sym.fn h ∈ direct f → h ∈ keys) {f : Nat} {s : Sym}
-    (hr : Reach direct f s) : f ∈ keys → ∀ h, s = .fn h → h ∈ keys := by
+theorem reach_keys {direct : Sym → List Sym} {keys : List Sym}
+    (hk : ∀ k ∈ keys, ∀ s ∈ direct k, s ∈ keys) {k s : Sym}
+    (hr : Reach direct k s) : k ∈ keys → s ∈ keys := by
   induction hr with
-  | base hd => intro hf h hs; subst hs; exact hk _ hf _ hd
-  | step _ _ ih1 ih2 => intro hf h hs; exact ih2 (ih1 hf _ rfl) h hs
+  | base hd => intro hf; exact hk _ hf _ hd
+  | step _ _ ih1 ih2 => intro hf; exact ih2 (ih1 hf)
 
-/-- `recurse` computes reachability: for every key, the stored set is exactly the set of symbols the
-    function mentions directly or through the functions it can reach. -/
-theorem recurse_is_reach {direct : Nat → List Sym} {keys : List Nat} {fuel : Nat} {res : Nat → List Sym}
-    (hk : ∀ f ∈ keys, ∀ h, Sym.fn h ∈ direct f → h ∈ keys)
+/-- `recurse` computes reachability: for every key, the stored set is exactly the set of symbols it
+    mentions directly or through the symbols it can reach. -/
+theorem recurse_is_reach {direct : Sym → List Sym} {keys : List Sym} {fuel : Nat} {res : Sym → List Sym}
+    (hk : ∀ k ∈ keys, ∀ s ∈ direct k, s ∈ keys)
     (h : recurse fuel keys direct = some res) :
-    ∀ f ∈ keys, ∀ s, s ∈ res f ↔ Reach direct f s := by
+    ∀ k ∈ keys, ∀ s, s ∈ res k ↔ Reach direct k s := by
   obtain ⟨hs, hm, hc⟩ := recurse_inv (direct := direct) keys fuel direct res
     (fun _ _ hd => Reach.base hd) (fun _ _ hd => hd) h
-  intro f hf s
+  intro k hf s
   constructor
-  · exact hs f s
+  · exact hs k s
   · intro hr
     induction hr with
     | base hd => exact hm _ _ hd
-    | @step f' h' s' h1 _ ih1 ih2 =>
-      have hh : h' ∈ keys := reach_fn_keys hk h1 hf h' rfl
-      exact hc _ hf (.fn h') (ih1 hf) s' (ih2 hh)
+    | @step k' m' s' h1 _ ih1 ih2 =>
+      have hh : m' ∈ keys := reach_keys hk h1 hf
+      exact hc _ hf m' (ih1 hf) s' (ih2 hh)
 
 end RsslVerif.Lemmas.MetaReach
